@@ -4,5 +4,6 @@ set -e
 here="$(cd "$(dirname "$0")" && pwd)"
 cd "$here"
 mkdir -p run evidence lean/AbnfGen
+/venv/bin/python harness/extract.py
 cd lean
 lake build Abnf driver
